@@ -37,9 +37,13 @@ class StubRcEvaluator(RcEvaluator):
     def _get_default_context(self):
         return None
 
+    def get_evaluation_method(self, condition_key):  # the public look-up hook of Evaluator
+        return self.stub_methods.get(condition_key)
+
 
 class StubFcEvaluator(FcEvaluator):
-    pass
+    def get_evaluation_method(self, condition_key):
+        return self.stub_methods.get(condition_key)
 
 
 class StubHintsProvider(HintsProvider):
@@ -294,8 +298,8 @@ class Harness:
         for k, v in (fc or {}).items():
             table = v if isinstance(v, dict) else {"*": (v, None) if isinstance(v, bool) else tuple(v)}
             fc_methods[k] = it.call(make_fc, [table, k in async_keys], {}, None, None)
-        self.rc_eval = Obj(f"{STUB_MODULE}.StubRcEvaluator", {"_evaluation_methods": rc_methods, "logger": logger})
-        self.fc_eval = Obj(f"{STUB_MODULE}.StubFcEvaluator", {"_evaluation_methods": fc_methods, "logger": logger})
+        self.rc_eval = Obj(f"{STUB_MODULE}.StubRcEvaluator", {"stub_methods": rc_methods, "_evaluation_methods": rc_methods, "logger": logger})
+        self.fc_eval = Obj(f"{STUB_MODULE}.StubFcEvaluator", {"stub_methods": fc_methods, "_evaluation_methods": fc_methods, "logger": logger})
         self.hints = Obj(f"{STUB_MODULE}.StubHintsProvider", {"table": dict(hints or {}), "logger": logger})
         self.packages = Obj(f"{STUB_MODULE}.StubPackageResolver",
                             {"table": dict(packages or {}), "logger": logger, "edifact_format": Opaque("UTILMD", truthy=True)})
@@ -350,11 +354,11 @@ def run_is_valid(model: SrcModel, t_or_str, chooser=None):
         fcs = cer.fields.get("format_constraints") or {}
         counter.setdefault("distinct", set()).add((tuple(sorted((k, repr(v)) for k, v in rcs.items())),
                                                    tuple(sorted((k, repr(v.fields.get("format_constraint_fulfilled"))) for k, v in fcs.items()))))
-        h.rc_eval.fields["_evaluation_methods"] = {k: it.call(make_rc, [v, False], {}, None, None) for k, v in rcs.items()}
+        h.rc_eval.fields["_evaluation_methods"] = h.rc_eval.fields["stub_methods"] = {k: it.call(make_rc, [v, False], {}, None, None) for k, v in rcs.items()}
         fm = {}
         for k, v in fcs.items():
             fm[k] = it.call(make_fc, [{"*": (v.fields.get("format_constraint_fulfilled"), v.fields.get("error_message"))}, False], {}, None, None)
-        h.fc_eval.fields["_evaluation_methods"] = fm
+        h.fc_eval.fields["_evaluation_methods"] = h.fc_eval.fields["stub_methods"] = fm
         h.hints.fields["table"] = dict(cer.fields.get("hints") or {})
         return None
 
